@@ -245,11 +245,8 @@ def _single_return(fi):
     return rets[0]
 
 
-def lin_word_rule(ctx):
-    p = ctx.p
-    base = p.find_class("Linear", "nflows.transforms.linear")
-    res = RuleResult("LIN-WORD", "matrix-word algebra: weight_inverse() = W^-1, forward_no_cache = X W^T + b, inverse_no_cache = (X - b) W^-T, combined accessors return W / W^-1, triangular solves use the flags of their factor; Householder matrix() = Q^-1")
-    res_ld = RuleResult("LIN-LOGDET", "logabsdet(), the combined accessors and forward_no_cache carry + sum over W's factors of sum(log diag); inverse_no_cache carries its negation")
+def check_linear_classes(p, base, res, res_ld):
+    """Decide every subclass of `base` that defines accessors of its own; returns their number."""
     n_cls = 0
     for cls in sorted(p.subclasses_of(base), key=lambda c: c.name):
         if cls is base:
@@ -332,6 +329,15 @@ def lin_word_rule(ctx):
                 res_ld.ok("%s.%s: %s" % (cls.name, mname, _show_keys(got)))
             else:
                 res_ld.fail(Finding("LIN-LOGDET", fi.module, fi.qualname, path.ret_node, "%s.%s carries `%s` but the factors of weight() (`%s`) give `%s`" % (cls.name, mname, _show_keys(got), W.show(), _show_keys(wantk)), construct="log-det of %s.%s" % (cls.name, mname)))
+    return n_cls
+
+
+def lin_word_rule(ctx):
+    p = ctx.p
+    base = p.find_class("Linear", "nflows.transforms.linear")
+    res = RuleResult("LIN-WORD", "matrix-word algebra: weight_inverse() = W^-1, forward_no_cache = X W^T + b, inverse_no_cache = (X - b) W^-T, combined accessors return W / W^-1, triangular solves use the flags of their factor; Householder matrix() = Q^-1")
+    res_ld = RuleResult("LIN-LOGDET", "logabsdet(), the combined accessors and forward_no_cache carry + sum over W's factors of sum(log diag); inverse_no_cache carries its negation")
+    n_cls = check_linear_classes(p, base, res, res_ld)
     if n_cls < 4:
         raise AnalysisIncomplete("LIN-WORD: %d parameterisations with own accessors (< 4)" % n_cls)
     # Householder: matrix() is the matrix M with forward(x) = F.linear(x, M) = x M^T
